@@ -144,5 +144,6 @@ INDEX = {
  ]},
  "C28": {"package": ".", "harnesses": [
    {"name": "VerifH28WritePaths", "common": {"max_depth": 3000}, "quick": {"bounds": {"bits": 2, "rows": 2, "colhis": 1, "caches": 2}}, "thorough": {"bounds": {"bits": 2, "rows": 3, "colhis": 2, "caches": 3}}},
+   {"name": "VerifH28FieldPaths", "common": {"max_depth": 4000, "allow_go": True}, "quick": {"bounds": {"types": 5, "writes": 2}}, "thorough": {"bounds": {"types": 5, "writes": 3}}},
  ]},
 }
